@@ -12,10 +12,13 @@ Arguments flat : simpl never.
 Section WithK.
 (* header counters and the header list collected in pass 1: no handler of this section touches them *)
 Variable K : tocinfo * list lox.
+(* the elements already open around the body: [] for a fragment, [body; html] for a complete document *)
+Variable BASE : list str.
+Local Notation Inv := (@Inv.Inv BASE).
 Record Side (s : st) : Prop := {
   sd_mk : markup_ok (mtags s); sd_inl : inl s = false; sd_asis : asis s = false;
   sd_if : ifdepth s = 0%nat; sd_udef : udef s = None; sd_um : umacros s = []; sd_bf : bf s = None;
-  sd_dt : dtags s = []; sd_vs : verse s = false; sd_fmt : fmt s = FX; sd_mode : mode s = 0%nat;
+  sd_dt : dtags s = []; sd_vs : verse s = false; sd_fmt : fmt s = FX; sd_mode : (mode s = 0%nat /\ BASE = []) \/ (mode s = 1%nat /\ BASE = [R "body"; R "html"]);
   sd_np : panicked s = None; sd_iv : ivars s = []; sd_pa : params s = [(R "xhtml-index", R "full"); (R "lang", R "en")];
   sd_toc : toc s = fst K; sd_lox : lox_toc s = snd K;
   sd_lof : lox_lof s = []; sd_lot : lox_lot s = []; sd_lop : lox_lop s = []
@@ -29,6 +32,8 @@ Proof. intros H [A1 A3 A4 A5 A6 A7 A8 A9 A10 A11 A12 A13 A14 A15 A16 A17 A18 A19
          |rewrite (eqf_get verse _ _ (fun _ => eq_refl) H)|rewrite (fmt_eqf _ _ H)|rewrite (eqf_get mode _ _ (fun _ => eq_refl) H)|rewrite (eqf_get panicked _ _ (fun _ => eq_refl) H)|rewrite (eqf_get ivars _ _ (fun _ => eq_refl) H)|rewrite (eqf_get params _ _ (fun _ => eq_refl) H)
          |rewrite (eqf_get toc _ _ (fun _ => eq_refl) H)|rewrite (eqf_get lox_toc _ _ (fun _ => eq_refl) H)
          |rewrite (eqf_get lox_lof _ _ (fun _ => eq_refl) H)|rewrite (eqf_get lox_lot _ _ (fun _ => eq_refl) H)|rewrite (eqf_get lox_lop _ _ (fun _ => eq_refl) H)]; assumption. Qed.
+Lemma Side_multi s : Side s -> X.multi s = false /\ X.epub s = false.
+Proof. intro H. unfold X.multi, X.epub. destruct (sd_mode _ H) as [[-> _]|[-> _]]; split; reflexivity. Qed.
 Definition is_bd (sc : scope) : Prop := sc_macro sc = R "Bd".
 Definition P (p : bool) (s : st) : Prop := Side s /\ Forall is_bd (sblock s) /\ process s = p /\ (p = true -> Inv s).
 Definition in_frag (b : block) : Prop :=
